@@ -36,6 +36,12 @@ class Prop:
         if star < 0:
             return None
         body, chk = line[1:star], line[star + 1:]
+        if re.fullmatch(rb'[0-9A-Fa-f]{3,8}', chk):
+            # an over-long field: whether one reads its first two digits or the whole number - if neither is the
+            # XOR of the body the sentence is not valid (the readings that differ are left to the model)
+            if int(chk, 16) != xor(body) and int(chk[:2], 16) != xor(body):
+                return False
+            return None
         if not re.fullmatch(rb'[0-9A-Fa-f]{2}', chk):
             return None
         return int(chk, 16) == xor(body)
@@ -72,6 +78,12 @@ class Prop:
             star = l.rfind(b'*')
             for v in range(256):
                 cases.append(('chk=%02X' % v, l[:star + 1] + b'%02X' % v))
+        # over-long checksum fields whose low byte is the right value (`*105` for a body that XORs to 05)
+        for l in plain[:4]:
+            star = l.rfind(b'*')
+            good = int(l[star + 1:], 16)
+            for hi in (1, 2, 0xF, 0x10, 0xFF):
+                cases.append(('chk-overlong', l[:star + 1] + b'%X' % ((hi << 8) | good)))
         # checksum-field token matrix (C10_general is compared through the correspondence only)
         for l in plain[:4]:
             star = l.rfind(b'*')
